@@ -94,10 +94,12 @@ class RemeshAdapter:
         heights = [(tops[i + 1] - tops[i]) * self.zu for i in range(k)]
         dens = [{NUCOF[c]: rat(a["n"][i][c]) * NU for c in NUCOF if rat(a["n"][i][c]) != 0} for i in range(k)]
         params = [{PNAME[p]: val(a["p"][i][p], p in ("I", "A", "P")) for p in PNAME} for i in range(k)]
-        asm = self.ga.build_assembly(heights, kinds, dens, params, assem_type="fuel" if a["asmFuel"] else "reflector")
+        asm = self.ga.build_assembly(heights, kinds, dens, params, assem_type="fuel" if a["asmFuel"] else "reflector",
+                                     geom=root["ini"].get("geom", "cold"))
         if self._pm is None:
             self._pm = self.um.ParamMapper([], list(PNAME.values()), asm[0])
-        w = {"src": asm, "dst": None, "jit": False}
+        # the cross-section every atom count is referred to: the source assembly's, measured once as built
+        w = {"src": asm, "dst": None, "jit": False, "area": float(asm[0].getArea())}
         w["mass_per_atom"] = {}
         for c, nuc in NUCOF.items():
             at = rat(a["atoms"][c])
@@ -115,7 +117,12 @@ class RemeshAdapter:
     def apply(self, w, act, post=None):
         n = act["n"]
         C = self.um.UniformMeshGeometryConverter
-        if n == "MakeUniform":
+        if n == "Move":
+            # interior boundaries of the same object move: Block.setHeight on every block (densities kept, total height unchanged)
+            t = [0] + act["tops"]
+            for i, b in enumerate(w["src"]):
+                b.setHeight((t[i + 1] - t[i]) * self.zu)
+        elif n in ("MakeUniform", "MakeUniform2"):
             if act.get("jit", "none") != "none":
                 w["jit"] = True
             w["dst"] = C.makeAssemWithUniformMesh(w["src"], self.mesh(act), paramMapper=self._pm, mapNumberDensities=True)
@@ -137,7 +144,7 @@ class RemeshAdapter:
         else:
             raise AssertionError("unknown action " + n)
 
-    def project_asm(self, a):
+    def project_asm(self, a, area=None):
         if a is None:
             return None
         names = list(PNAME.values())
@@ -155,15 +162,15 @@ class RemeshAdapter:
             "heights_consistent": all(abs((b.p.ztop - b.p.zbottom) - b.getHeight()) <= 1e-9 for b in a),
             "n": [{c: s["n"][NUCOF[c]] for c in NUCOF} for s in bs],
             "p": [{inv[k]: v for k, v in s["p"].items()} for s in bs],
-            "atoms": {c: self.ga.atoms_per_area(a, NUCOF[c]) for c in NUCOF},
+            "atoms": {c: self.ga.atoms_per_area(a, NUCOF[c], area) for c in NUCOF},
             "tot": tot,
             "mass": {c: float(a.getMass(NUCOF[c])) for c in NUCOF},
         }
 
-    def project(self, w, exp):
-        out = {"src": self.project_asm(w["src"]), "dst": self.project_asm(w["dst"])}
+    def project(self, w, exp, stage="orig"):
+        out = {"src": self.project_asm(w["src"], w["area"]), "dst": self.project_asm(w["dst"], w["area"])}
         if "at" in exp:
-            a = w["dst"] if w["dst"] is not None else w["src"]
+            a = w["src"] if stage in ("orig", "moved") else w["dst"]
             blocks = list(a)
             ix = {id(b): i + 1 for i, b in enumerate(blocks)}
             out["between"], out["between_jit"] = {}, {}
@@ -239,7 +246,7 @@ def run_remesh_state(ad, st, by_key):
             post = by_key.get((rp.skey(st["ini"]), rp.skey(hist[: k + 1])))
             ad.apply(w, act, post)
         exp = ad.expect(st, w)
-        got = ad.project(w, exp)
+        got = ad.project(w, exp, st["stage"])
     except Exception as ex:  # noqa: BLE001  an exception escaping a legal operation of armi is a divergence
         import traceback
 
@@ -425,10 +432,11 @@ class CommonMeshAdapter:
 # ------------------------------------------------------------------------------------------------------------
 TIERS = {
     "quick": {
-        "remesh_mc": [("AxialRemesh_mc.cfg", ("DoMakeUniform", "DoSolve", "MapBack")),
+        "remesh_mc": [("AxialRemesh_mc.cfg", ("DoMakeUniform", "DoSolve", "MapBack", "DoMove", "MakeUniform2")),
                       ("AxialRemesh_snap.cfg", ("DoSnap", "DoSnapRefused", "DoMakeUniform"))],
         "remesh_emit": [("AxialRemesh_emit.cfg", ZU, "exact"), ("AxialRemesh_emit_jit.cfg", ZU, "jitter"),
-                        ("AxialRemesh_sliver.cfg", ZU_SLIVER, "sliver"), ("AxialRemesh_sliver2.cfg", ZU_SLIVER, "sliver2")],
+                        ("AxialRemesh_sliver.cfg", ZU_SLIVER, "sliver"), ("AxialRemesh_sliver2.cfg", ZU_SLIVER, "sliver2"),
+                        ("AxialRemesh_hot.cfg", ZU, "hot-duct")],
         "resample": "Resample_mc.cfg",
         "filter": "FilterMesh_mc.cfg",
         "common": [("CommonMesh_mc.cfg", 5, "avg"), ("CommonMesh_planes.cfg", 7, "planes"), ("CommonMesh_outlier.cfg", 10, "outlier")],
@@ -436,11 +444,12 @@ TIERS = {
         "core": "CoreRemesh_mc.cfg",
     },
     "thorough": {
-        "remesh_mc": [("AxialRemesh_mc_thorough.cfg", ("DoMakeUniform", "DoSolve", "MapBack")),
+        "remesh_mc": [("AxialRemesh_mc_thorough.cfg", ("DoMakeUniform", "DoSolve", "MapBack", "DoMove", "MakeUniform2")),
                       ("AxialRemesh_snap_thorough.cfg", ("DoSnap", "DoSnapRefused", "DoMakeUniform"))],
         "remesh_emit": [("AxialRemesh_emit_thorough.cfg", ZU, "exact"), ("AxialRemesh_emit_jit_thorough.cfg", ZU, "jitter"),
                         ("AxialRemesh_emit.cfg", ZU_ODD, "odd-scale"),
-                        ("AxialRemesh_sliver.cfg", ZU_SLIVER, "sliver"), ("AxialRemesh_sliver2.cfg", ZU_SLIVER, "sliver2")],
+                        ("AxialRemesh_sliver.cfg", ZU_SLIVER, "sliver"), ("AxialRemesh_sliver2.cfg", ZU_SLIVER, "sliver2"),
+                        ("AxialRemesh_hot_thorough.cfg", ZU, "hot-duct")],
         "resample": "Resample_thorough.cfg",
         "filter": "FilterMesh_thorough.cfg",
         "common": [("CommonMesh_thorough.cfg", 6, "avg"), ("CommonMesh_planes_thorough.cfg", 8, "planes"),
@@ -543,7 +552,9 @@ def run(rep, tier, seed):
     finally:
         pool.shutdown(wait=True)
     rep.assume(
-        "one assembly, all blocks with the same cross-section (hexagonal cell fully filled: pins, duct, coolant, inter-coolant)",
+        "one assembly, all blocks with the same cross-section (hexagonal cell fully filled: pins, duct, coolant, inter-coolant at input "
+        "temperature; or pins, a thermally expanded solid HT9 duct that defines the pitch, coolant); atoms of a re-meshed copy are referred to "
+        "the source assembly's cross-section",
         "windows of getBlocksBetweenElevations / elevations of getBlockAtElevation inside the assembly (0 <= lo < hi <= top)",
         "peak law for non-negative values (the code folds peaks with max(value, 0.0)); no array-valued peak parameters exist in armi",
         "a source value None is skipped; a destination whose overlapped sources are all None keeps its previous value",
@@ -832,7 +843,7 @@ def selftest():
     from armi.reactor.converters import uniformMesh as um
     from armi.utils import mathematics
 
-    from armi.reactor import cores
+    from armi.reactor import blocks, cores
 
     A = assemblies.Assembly
     NC = um.NeutronicsUniformMeshConverter
@@ -849,6 +860,13 @@ def selftest():
          lambda: M(A, "getBlocksBetweenElevations", "top = min(b.p.ztop, zUpper)", "top = b.p.ztop")),
         ("remesh", "getBlocksBetweenElevations: height check by exact equality (only nearly coincident points notice)",
          lambda: M(A, "getBlocksBetweenElevations", "if abs(totalHeight - expectedHeight) > 1e-5:", "if totalHeight != expectedHeight:")),
+        ("remesh", "seed C11-3.2: createHomogenizedCopy sizes the homogenised hexagon with the cold pitch",
+         lambda: M(blocks.HexBlock, "createHomogenizedCopy", "self._pitchDefiningComponent[1],", "self._pitchDefiningComponent[0].getDimension(self.PITCH_DIMENSION, cold=True),")),
+        ("remesh", "seed C11-3.4: getBlocksBetweenElevations memoises its answer per window on the assembly",
+         lambda: M(A, "getBlocksBetweenElevations", [
+             ("        EPS = 1e-10\n        blocksHere = []\n", "        EPS = 1e-10\n        cacheKey = (\"blocksBetweenElevations\", float(zLower), float(zUpper))\n"
+              "        blocksHere = self._getCached(cacheKey)\n        if blocksHere is not None:\n            return list(blocksHere)\n        blocksHere = []\n"),
+             ("        return blocksHere\n", "        self._setCache(cacheKey, tuple(blocksHere))\n        return blocksHere\n")], None)),
         ("remesh", "setAssemblyStateFromOverlaps: integrated/averaged denominators swapped",
          lambda: M(C, "setAssemblyStateFromOverlaps", "if paramMapper.isVolIntegrated[paramName]:", "if not paramMapper.isVolIntegrated[paramName]:")),
         ("remesh", "setAssemblyStateFromOverlaps: peak parameters averaged", lambda: M(C, "setAssemblyStateFromOverlaps", "if paramMapper.isPeak[paramName]:", "if False:")),
@@ -1079,7 +1097,8 @@ class CoreAdapter:
                     tot[p] = [x + y for x, y in zip(tot[p], v)]
         return {"tops": [float(b.p.ztop) for b in a], "n": [{c: s["n"][NUCOF[c]] for c in NUCOF} for s in bs],
                 "p": [{inv[k]: v for k, v in s["p"].items()} for s in bs],
-                "atoms": {c: self.ga.atoms_per_area(a, NUCOF[c]) for c in NUCOF}, "tot": tot}
+                "atoms": {c: self.ga.atoms_per_area(a, NUCOF[c]) for c in NUCOF}, "tot": tot,
+                "area": float(a[0].getArea())}
 
     def expect_asm(self, a, sc):
         k = len(a["tops"])
